@@ -126,7 +126,25 @@ def _used_base_then_child(m):
     return Child
 
 
+def _child_inheriting_renamed(m, use_base_first):
+    """child that INHERITS renamed properties (source != attribute name) from its base and adds one of its own"""
+    from vf.common import Object, Property, Number, Integer, accepts
+
+    class Base(Object):  # type: ignore
+        a_ = Property(Number(minimum=m), source="a")
+        ab_ = Property(Integer(default=1), source="a b")
+
+    if use_base_first:
+        accepts(Base, {"a": m})
+
+    class Child(Base):  # type: ignore
+        b = Property(Number())
+
+    return Child
+
+
 TEMPLATES = {
+    "child_inheriting_renamed": ("mn: int, ubf: bool", "_child_inheriting_renamed(mn, ubf)", "FLAGS:a,b,a b", [], "quick"),
     "class_with_default": ("mn: int", 'Object.inline("D", properties={"a": Property(Number(minimum=mn)), "b": Property(Integer(default=2))}, default={"a": mn, "b": 7, "zz": 1})', "FLAGS:a,b,a b", [], "quick"),
     "nested_class_with_default": ("mn: int", 'Element(properties={"in": Property(Object.inline("D", properties={"x y": Property(Number(minimum=mn))}, default={"x y": mn, "q": 1}))}, items=Object.inline("E", properties={"x y": Property(Integer())}, default={"x y": 3}))', "FLAGS:in,b|x y", [], "quick"),
     "child_of_used_base": ("mn: int", "_used_base_then_child(mn)", "FLAGS:a,b,a b", [], "quick"),
@@ -185,6 +203,33 @@ def make():
     return Element(properties={"a_": Property(Integer(minimum=mn), source="a"), "a_b": Property(Integer(), source="a b")}, additionalProperties=Integer(maximum=mn))
 return complete_ok(make, v)
 """, timeout=150, group="complete", covers="members named like the Python attribute of a renamed property, next to / instead of its JSON name"))
+    fargs, fsetup = _flags(["a", "b", "a b"])
+    hs.append(mk("c04_inherited_renames_by_declaration", f"mn: int, ubf: bool, {fargs}", [], f"""
+{fsetup}
+Child = _child_inheriting_renamed(mn, ubf)
+ok, r = verdict(Child, jcopy(v))
+if not ok:
+    return True
+# the expected attribute for each JSON name comes from the DECLARATION (Base.a_ has source "a"), not from the class under test
+want_a = float(v["a"]) if "a" in v else None
+want_ab = v["a b"] if "a b" in v else 1
+got_a = r.a_ if not isinstance(r.a_, NotPassed) else None
+return got_a == want_a and type(got_a) is type(want_a) and r.ab_ == want_ab and set(r._dict) == {{"a_", "ab_", "b"}}
+""", timeout=150, group="complete", covers="renamed properties inherited from a base class: attribute names and JSON names as DECLARED on the base"))
+    fargs2, fsetup2 = _flags(["a", "a b", "class"])
+    hs.append(mk("c04_parsed_renames_by_schema", f"mn: int, typed: bool, {fargs2}", [], f"""
+{fsetup2}
+S = {{"properties": {{"a": {{"type": "number", "minimum": mn}}, "a b": {{"type": "integer"}}, "class": {{"type": "integer", "default": 5}}}}}}
+if typed:
+    S.update({{"type": "object", "title": "T"}})
+ok, r = verdict(parse_s(S), jcopy(v))
+if not ok:
+    return True
+# expected Python names written down here (documented renaming rule), not read back from the parsed class
+get = (lambda k: getattr(r, k)) if typed else (lambda k: r[k])
+a, ab, cl = get("a"), get("a_b"), get("class_")
+return ((a == v["a"] and type(a) is float) if "a" in v else isinstance(a, NotPassed)) and (ab == v["a b"] if "a b" in v else isinstance(ab, NotPassed)) and cl == v.get("class", 5)
+""", timeout=150, group="complete", covers="declared properties of a PARSED schema are readable under the documented Python names (a, a_b, class_), typed and untyped"))
     for name, (hargs, make, vt, pre, tier) in TEMPLATES.items():
         setup = ""
         vargs = f"v: {vt}"
